@@ -30,7 +30,7 @@ ASSUMPTIONS = [
 ]
 FLOORS = {'quick': {'nontrivial': 40, 'values_compared': 500},
           'thorough': {'nontrivial': 400, 'values_compared': 5000}}
-SIZES = {'quick': 400, 'thorough': 6000}
+SIZES = {'quick': 1500, 'thorough': 10000}
 
 
 def eff_seed(seed):
